@@ -387,6 +387,96 @@ CLAIMED['C09'] = dict(
     design_ref="DESIGN.md 5 C09",
 )
 
+CLAIMED['C06'] = dict(
+        technique="Coq proof over a hand-written executable model (coq/Model/Iter.v) of iterative evaluation on an "
+                  "arbitrary, possibly cyclic, finite workbook: tracker namespace, _CycleCell value setter / "
+                  "start_calcs / needs_calc, range nodes with the value-is-None cache, graph construction through "
+                  "the setter, set_value without reset, the outer pass loop; extracted-model/implementation "
+                  "differential run on whole evaluate/set_value histories; exact-fixed-point and non-iterative-"
+                  "compiler oracles on the implementation; AST fingerprint of the transcribed functions",
+        text="Machine-checked (Coq 8.16, 8 theorems in coq/Props/C06.v, all closed under the global context). "
+             "FULL, for every workbook (cyclic or not, with range nodes), every state and every (iterations, "
+             "tolerance): C06_bounded (a returning evaluate made between 1 and max(1, iterations) passes), "
+             "C06_loop_total (the pass loop never fails by itself), C06_tolerance (if it stops before "
+             "`iterations` passes the todo set is empty and every cell computed in the last pass has "
+             "|new - prev| < (1+1e-5)*tolerance - the code's constant, as a double - or is blank in both; proved "
+             "through a generic lemma: any predicate closed under the four primitive state changes is an "
+             "invariant of _evaluate/_evaluate_range/_gen_graph). FULL for linear systems x = Ax + b over Q: "
+             "C06_contraction_step (a value computed from readings within E of the fixed point, any mixture of "
+             "this-pass and previous-pass values, is within (sum_j|a_ij|)E), C06_contraction_pass (one pass of "
+             "the MODEL on a built workbook of linear cell formulas with ||A||inf <= q <= 1, any evaluation "
+             "order the wip/computed discipline produces: everything stays within E, every formula cell "
+             "computed in the pass ends within qE), C06_contraction_bound (such a pass with q < 1 that moved no "
+             "component by more than d leaves all within q/(1-q) d). Not proved as one statement: that the last "
+             "pass computes every cell of the target's cone (needed to instantiate C06_contraction_bound with "
+             "the computed set), and cycles through range references (excluded from C06_contraction_pass: the "
+             "model, like the code, never refreshes a range). PARTIAL: C06_acyclic_partial + C06_acyclic_write "
+             "(acyclic workbook of linear formulas WITHOUT range nodes whose target is already built and with "
+             "nothing on the stack: iterative evaluate returns the from-scratch value for every (iterations, "
+             "tolerance) and the state stays quiet, also after any constant write; conditional on the "
+             "evaluation returning Ok - sufficiency of the fuel #cells+1 is not proved, the differential run "
+             "never saw OutOfFuel). REFUTED in the faithful model (advisory, built as an extra target, "
+             "Refuted/C06_acyclic.v): C06_acyclic_first_use_refuted (a cell first built in this call answers "
+             "with the blank it was constructed with), C06_acyclic_range_refuted (SUM(A1:A3) stays 6 after "
+             "set_value(A1, 10)). CORRESPONDENCE-ONLY: the whole model is hand-written (closures, "
+             "threading.local, openpyxl are outside the translator's subset); every quick run replays ~9000 "
+             "generated histories (~31k evaluate/set_value operations: contracting circular systems of 1-6 "
+             "cells in 1-2 rings incl. self references and SUM(range) terms, acyclic workbooks with ranges, with "
+             "and without stored results, targets in random order so that cells enter the model in different "
+             "orders) and compares result, pass count, every cell's (_value, _prev_value, wip), every range's "
+             "cached value and the tracker's todo/computed sets after each operation, 0 divergences; an AST "
+             "digest of the transcribed functions flags any edit of them. The oracle judges the property's own "
+             "statement on the implementation (passes within [1, iterations]; early stop => every cell of the "
+             "cone moved by at most the tolerance and lies within q/(1-q)*tolerance of the exact fixed point "
+             "from rational Gaussian elimination; acyclic => equals a fresh non-iterative compiler). Implementation "
+             "findings it exhibits, all registered as known findings (C06-construction-counts-as-computed, "
+             "C06-range-cached-forever, C06-tolerance-slack): first use / late-built cells answer with the "
+             "constructed value, range nodes are cached forever, the 1e-5 slack of close_enough. The model "
+             "follows /repo fixes 761df50 (set_value type clause) and 4ad9eb7 (namespace defaults).",
+        design_ref="DESIGN.md 5 C06",
+    )
+
+CLAIMED['C07'] = dict(
+        category='partial',
+        technique="Coq proof over a hand-written model (coq/Model/Threads.v) of a process with several threads: the "
+                  "two module-level singletons' thread-local namespaces (created lazily with exactly the attributes "
+                  "the `ns` properties create), per-compiler cell state, one small-step machine per thread whose "
+                  "steps are the entries of ExcelCompiler._evaluate (built on the C06 model's setter/start_calcs/"
+                  "needs_calc/graph construction), schedules = lists of thread ids; systematic schedule enumeration "
+                  "on real threading.Threads with a baton around compiler._evaluate; extracted-model/implementation "
+                  "comparison under the same schedules; AST inventory of module/class-level mutable objects",
+        text="PARTIAL by nature: the model interleaves at _evaluate granularity; it cannot exhibit pre-emption inside "
+             "a C-level operation, the GIL hand-over inside numpy/openpyxl, or state reachable only through objects "
+             "outside the static inventory. Machine-checked (Coq 8.16, 3 theorems in coq/Props/C07.v, all closed "
+             "under the global context), FULL within the model: C07_noninterference (threads with their own "
+             "namespace working on different compilers: for EVERY schedule what thread t observes - result, pass "
+             "count, phase, its tracker namespace and array-context stack, its compiler's cells - equals its solo "
+             "run; frame lemma + determinism of the own step + induction over the schedule; the step function is "
+             "arbitrary in the proof, so every pair of {iterative, array-formula, plain} workloads and every "
+             "(iterations, tolerance) is covered), C07_noninterference_trace (the same after every prefix: the "
+             "whole sequence of observables), C07_fresh (a process none of whose threads used the library: for all "
+             "operations - evaluate, set_value on an iterative compiler, cell construction as in load/trim_graph - "
+             "compiler contents and schedules, no step reads a namespace attribute that does not exist; follows "
+             "the 5-attribute initialiser of fix 4ad9eb7; Example set_value_needed_tolerance shows the "
+             "3-attribute namespace did fail). REFUTED (advisory extra target Refuted/C07_shared.v): "
+             "C07_shared_refuted - with ONE namespace for all threads two iterative evaluations with different "
+             "settings disturb each other (1 pass instead of 12), i.e. the theorem rests on threading.local. "
+             "CORRESPONDENCE: every quick run enumerates ~2500 schedules on real threads (workload B runs to "
+             "completion or to its own k-th _evaluate entry inside the j-th entry of workload A; workloads: "
+             "iterative contracting circular systems, plain acyclic workbooks, a CSE array formula; fresh and "
+             "warmed-up threads): result, pass count, number of _evaluate entries, final cells and the context "
+             "stack must equal the solo runs; for iterative x iterative pairs the extracted model is run under the "
+             "same schedule (same result / passes / entries; the shared-namespace variant must differ somewhere); "
+             "load (from_file of an iterative model), set_value, evaluate, trim_graph are run on brand-new "
+             "threads; the AST inventory (30 module/class-level mutable objects) must show exactly the two "
+             "threading.local namespaces with the modelled attributes, the two singletons, and as run-time-mutated "
+             "objects only _Cell.ctr and star_args; any new entry breaks the tie. NOT covered by the model and "
+             "found by the harness: apply_meta's excel_func_meta['name_space'] back-pointer lets CELL/INDEX over "
+             "references read another compiler's cells (known finding C07-func-meta-name-space, exhibited on two "
+             "real threads by every run).",
+        design_ref="DESIGN.md 5 C07",
+    )
+
 NOT_YET = "check not built yet in this round (planned: DESIGN.md section 7 lists the build order)"
 
 
